@@ -5,3 +5,4 @@ pub mod xlsx_strings;
 pub mod shared_formula;
 pub mod numfmt;
 pub mod dates;
+pub mod xlsx_tables;
